@@ -120,19 +120,30 @@ def run_case(ctx, drv, idx, case, extra=(), verify=True, keep=('sys.ndjson',), t
     # Go >= 1.24 ignores rand.Seed unless told otherwise; "same inputs" is a premise of every comparison made here
     env['GODEBUG'] = 'randseednop=0'
     argv = [drv] + case_args(ctx, case, verify) + list(extra)
-    p = ctx.run(argv, cwd=cwd, timeout=timeout, env=env, check=False)
-    obs, stage = None, None
-    for line in p.stdout.splitlines():
-        if not line.startswith('{'):
-            continue
-        try:
-            j = json.loads(line)
-        except ValueError:
-            continue
-        if list(j.keys()) == ['stage']:
-            stage = j['stage']
-        else:
-            obs = j
+    first_death = None
+    for attempt in (1, 2):
+        p = ctx.run(argv, cwd=cwd, timeout=timeout, env=env, check=False)
+        obs, stage = None, None
+        for line in p.stdout.splitlines():
+            if not line.startswith('{'):
+                continue
+            try:
+                j = json.loads(line)
+            except ValueError:
+                continue
+            if list(j.keys()) == ['stage']:
+                stage = j['stage']
+            else:
+                obs = j
+        if obs is not None or p.returncode == 0:
+            if first_death is not None:
+                # a child that died once and runs to completion when repeated: kept as a note with its last words,
+                # never a verdict (DESIGN section 6: only reproduced failures count)
+                ctx.notes.append('unreproduced death of a child (%s): %s' % (first_death, ' '.join(argv[1:])))
+            break
+        if first_death is None:
+            words = [l for l in p.stdout.splitlines() if 'anic' in l or 'fatal' in l.lower()]
+            first_death = 'rc=%s stage=%s %s' % (p.returncode, stage, (words[0] if words else fatal_line([l for l in p.stdout.splitlines() if not l.startswith('{')]))[:300])
     log = [l for l in p.stdout.splitlines() if not l.startswith('{')]
     for f in os.listdir(cwd):
         if f not in keep and not f.endswith('.json'):
@@ -159,6 +170,10 @@ def norm_msg(s):
 
 def fatal_line(log):
     """The line a dying process left: log.Fatal / log.Panic / panic message."""
+    for l in log:
+        m = re.search(r'\.go:\d+: (Panic: .*)$', l)
+        if m:
+            return m.group(1)
     for l in reversed(log):
         m = re.search(r'\.go:\d+: (.*)$', l)
         if m and 'Passed' not in l:
@@ -261,6 +276,22 @@ def signature(res, kind, detail):
     return sig
 
 
+SINGLE_CU = 'cus=1,sas=1'
+
+
+def platform_dependence(ctx, drv, res, idx):
+    """For a wrong result in timing mode: does the same run on the single-CU timing platform give the right one?
+    (together with emulation being right this isolates visibility of data between compute units)"""
+    c = dict(res['case'])
+    # exactly one compute unit in the whole platform: one GPU, device memory, one shader array with one CU
+    c['c'] = dict(c['c'], n=1, dist='plain', umem=0)
+    one = run_case(ctx, drv, 'onecu%s' % idx, c, ['-knobs', SINGLE_CU])
+    f = classify_quiet(one)
+    launches = sum(1 for x in (one['obs'] or {}).get('commands', []) if 'Launch' in x['what'])
+    shutil.rmtree(one['dir'], ignore_errors=True)
+    return {'single_cu_platform': 'passes' if f is None else 'fails:' + f[0], 'kernel_launches': 'several' if launches > 1 else 'one'}
+
+
 def judge(ctx, drv, results, verify=True, extra=(), prop='C01'):
     """Confirm every failure by one re-execution and report it."""
     failures = 0
@@ -276,6 +307,8 @@ def judge(ctx, drv, results, verify=True, extra=(), prop='C01'):
             if f2 is None or f2[0] != kind:
                 raise vlib.Infra('failure not reproduced (%s, %s): %s' % (kind, detail[:200], ' '.join(res['argv'])))
         sig = signature(again, kind, detail)
+        if kind == 'verify_failed' and res['case']['c']['mode'] == 'timing' and res['case']['w'] not in HOST_CONCURRENT:
+            sig.update(platform_dependence(ctx, drv, res, i))
         what = '%s: %s: %s: %s' % (prop, case_key(res['case']), kind, detail[:300])
         ctx.report_failure(what, sig, {'case': res['case'], 'argv': res['argv'], 'kind': kind, 'detail': detail,
                                        'log_tail': res['log'][-6:]})
@@ -390,6 +423,119 @@ def validate_sys_traces(ctx, results, limit_events, limit_runs, info):
     return path, n, chosen
 
 
+# ------------------------------------------------- design level (System.tla)
+def _intervals(ws):
+    ws = sorted(ws)
+    out = []
+    for w in ws:
+        if out and out[-1][1] == w:
+            out[-1][1] = w + 1
+        else:
+            out.append([w, w + 1])
+    return out
+
+
+def system_states_to_trace(states, ngpu, nwg, tail=None):
+    """A behaviour of System.tla (list of state dicts with `act` and `pc`) in the vocabulary of the system trace."""
+    recs = [{'e': 'Reset', 'ngpu': ngpu, 'multictx': 0, 'timing': 1}]
+    rid = [0]
+    prev_pc = None
+    for st in states:
+        a = st.get('act') or {}
+        e = a.get('e')
+        pc = st.get('pc')
+        if e == 'StartLaunch':
+            recs.append({'e': 'CmdStart', 'q': a['q'], 'c': a['c'], 'kind': 'Launch' if a['kind'] == 'launch' else 'LaunchUnified'})
+            own = a['own']
+            for g in sorted(a['to']):
+                share = own[g - 1] if isinstance(own, list) else own.get(g, own.get(str(g), []))
+                recs.append({'e': 'Launch', 'g': g, 'id': a['c'] * 10 + g, 'c': a['c'], 'nwg': nwg, 'own': _intervals(list(share)), 'pkt': 1})
+        elif e == 'MapWG':
+            recs.append({'e': 'MapWG', 'g': a['g'], 'id': a['id'], 'wg': a['wg'], 'm': a['id'] * 100 + a['wg'], 'nwf': 1, 'items': 64})
+        elif e == 'WGDone':
+            recs.append({'e': 'WGDone', 'g': a['g'], 'ms': [a['id'] * 100 + a['wg']]})
+        elif e == 'LaunchRsp':
+            recs.append({'e': 'LaunchRsp', 'g': a['g'], 'id': a['id']})
+        elif e == 'CmdEnd':
+            recs.append({'e': 'CmdEnd', 'c': a['c']})
+        elif e == 'StartCopy':
+            recs.append({'e': 'CmdStart', 'q': a['q'], 'c': a['c'], 'kind': 'D2H' if a['kind'] == 'd2h' else 'H2D'})
+            if a['flush']:
+                for g in range(1, ngpu + 1):
+                    rid[0] += 1
+                    recs.append({'e': 'FlushReq', 'g': g, 'r': rid[0], 'c': a['c']})
+        elif e == 'FlushRsp':
+            recs.append({'e': 'FlushRsp', 'g': a['g'], 'r': 0})
+        elif e == 'CopyRsp':
+            rid[0] += 1
+            recs.append({'e': 'CopyReq', 'g': a['g'], 'dir': a['kind'], 'r': rid[0], 'c': a['c']})
+            recs.append({'e': 'CopyRsp', 'g': a['g'], 'r': rid[0]})
+        elif e == 'Quiesce':
+            if recs[-1]['e'] != 'Quiesce':
+                recs.append({'e': 'Quiesce'})
+        if e in ('FlushRsp', 'CopyRsp') and prev_pc is not None and pc != prev_pc:
+            recs.append({'e': 'CmdEnd', 'c': a['c']})
+        prev_pc = pc
+    if tail:
+        recs.append(tail)
+    return recs
+
+
+DEVIATIONS = [
+    # cfg, what TLC must report, rule(s) SysTrace.tla must name for the counterexample
+    ('MC_System_dev_gap.cfg', 'ExactlyOnce', {'grid_not_covered'}, 2, 3),
+    ('MC_System_dev_overlap.cfg', 'AtMostOnce', {'work_group_owned_twice', 'work_group_mapped_twice'}, 2, 3),
+    ('MC_System_dev_early.cfg', 'NoEarlyRsp', {'kernel_reported_done_before_all_work_groups_completed'}, 2, 3),
+    ('MC_System_dev_noflush.cfg', 'NoStaleRead', {'device_to_host_copy_without_flush'}, 2, 3),
+    ('MC_System_dev_flush.cfg', 'DEADLOCK', {'Hang'}, 2, 3),
+]
+
+
+def design_level(ctx, thorough):
+    """System.tla: exhaustive check of the intended design, the named deviations give the expected counterexamples, and the
+    trace specification agrees with the design spec in both directions (accepts its behaviours, rejects the counterexamples)."""
+    r = ctx.tlc_expect_ok(['system'], 'MC_System.tla', 'MC_System.cfg', workers=4, timeout=900, coverage=True)
+    zeros = [z for z in r.coverage_zero() if z.startswith('System!')]
+    ctx.cov['system_model'] = {'two_queues_states': r.distinct, 'coverage_zero_actions': zeros}
+    r2 = ctx.tlc_expect_ok(['system'], 'MC_System.tla', 'MC_System_seq.cfg', workers=4, timeout=900)
+    ctx.cov['system_model']['one_queue_three_gpus_states'] = r2.distinct
+    ctx.log('System.tla: %d + %d distinct states, invariants and termination hold' % (r.distinct, r2.distinct))
+    checked = []
+    for cfg, expect, rules, ngpu, nwg in DEVIATIONS:
+        d = ctx.tlc(['system'], 'MC_System.tla', cfg, workers=1, timeout=600, kind='demo')
+        got = 'DEADLOCK' if d.deadlock else ','.join(d.violated)
+        if expect not in got:
+            raise vlib.Infra('System.tla with %s: expected %s, TLC reported %r' % (cfg, expect, got))
+        ce = d.counterexample()
+        states = [s[1] for s in ce]
+        tr = system_states_to_trace(states, ngpu, nwg, tail={'e': 'Hang'} if expect == 'DEADLOCK' else None)
+        pth = os.path.join(ctx.scratch, 'design_%s.ndjson' % cfg[:-4])
+        vlib.write_ndjson(pth, tr)
+        v = ctx.validate_trace(TSPEC['dirs'], TSPEC['module'], TSPEC['cfg'], pth)
+        if v['accepted']:
+            raise vlib.Infra('SysTrace.tla accepts the counterexample of %s (vacuous rule)' % cfg)
+        sig = sys_signature(tr, v['highwater'] or 1, v)
+        if sig.get('rule') not in rules:
+            raise vlib.Infra('SysTrace.tla rejects the counterexample of %s with %r, expected one of %s' % (cfg, sig.get('rule'), sorted(rules)))
+        checked.append({'deviation': cfg[14:-4], 'tlc': got, 'trace_rule': sig.get('rule')})
+    ctx.cov['system_model']['deviations'] = checked
+    # behaviours of the intended design are accepted by the trace specification
+    behs = []
+    for cfg in ('MC_System_sim.cfg', 'MC_System_sim2.cfg'):
+        bs, _ = ctx.simulate(['system'], 'MC_System.tla', cfg, num=40 if thorough else 10, depth=70)
+        behs += bs
+    all_recs = []
+    for b in behs:
+        all_recs += system_states_to_trace(b, 2, 3)
+    pth = os.path.join(ctx.scratch, 'design_behaviours.ndjson')
+    vlib.write_ndjson(pth, all_recs)
+    v = ctx.validate_trace(TSPEC['dirs'], TSPEC['module'], TSPEC['cfg'], pth)
+    if not v['accepted']:
+        raise vlib.Infra('SysTrace.tla rejects a behaviour of System.tla at line %s: %s' % (v['highwater'], all_recs[(v['highwater'] or 1) - 1]))
+    ctx.cov['system_model']['behaviours_accepted_by_trace_spec'] = len(behs)
+    ctx.log('System.tla <-> SysTrace.tla: %d behaviours accepted, %d deviation counterexamples rejected' % (len(behs), len(checked)))
+
+
 # -------------------------------------------------------------------- check
 def nontrivial(res):
     o = res['obs']
@@ -401,6 +547,9 @@ def nontrivial(res):
 def run(ctx, selftest=False):
     thorough = ctx.tier == 'thorough'
     drv = ctx.go_build('sysrun')
+    # the design-level part only needs TLC: it runs beside the replay of the configurations
+    design_pool = ThreadPoolExecutor(max_workers=1)
+    design = design_pool.submit(design_level, ctx, thorough)
 
     sets = cover_sets(ctx, 'acceptance', ctx.seed)
     cases = list(sets['cover'] if thorough else sets['quick'])
@@ -419,6 +568,9 @@ def run(ctx, selftest=False):
     nfail = judge(ctx, drv, results, extra=['-sys-trace', 'sys.ndjson'])
     ok = [r for r in results if classify_quiet(r) is None]
     ctx.log('%d runs, %d failing, %d passing' % (len(results), nfail, len(ok)))
+
+    design.result()
+    design_pool.shutdown()
 
     # system-level trace validation of a sample of the passing runs (timing and multi-GPU first)
     ok.sort(key=lambda r: (0 if r['case']['c']['mode'] == 'timing' else 1, -r['case']['c']['n'], case_key(r['case'])))
